@@ -145,6 +145,10 @@ def mk(kind, *a):
         hx, = a
         data = bytes.fromhex(hx)
         return Op(desc, lambda b: b.store_snake_bytes(data), None, None, lambda s: s.load_snake_bytes(), None, data, terminal=True)
+    if kind == 'snake_gen':         # a long snake byte string, given by its length (pattern data)
+        n, = a
+        data = bytes((i * 7 + 3) % 251 for i in range(n))
+        return Op(desc, lambda b: b.store_snake_bytes(data), None, None, lambda s: s.load_snake_bytes(), None, data, terminal=True)
     if kind == 'snake_string_prefixed':     # need_prefix=True: a zero byte in front (the on-chain "snake" content format)
         text, = a
         return Op(desc, lambda b: b.store_snake_string(text, True), None, None, lambda s: s.load_snake_bytes(), None, b'\x00' + text.encode(), terminal=True)
